@@ -113,18 +113,48 @@ Definition mon_obs (prev_now : Z) (hist : history) (o : obs) : bool :=
   && cps_ok (o_now o) (o_ts o) (o_ts_cps o)
   && forallb (past_ok (o_now o) hist width) (o_past o).
 
-Fixpoint mon_from (prev_now : Z) (hist : history) (t : list item) (i : N) : N :=
+(* state persists until a call changes it: after an [Advance] (however long) or a failing call every
+   current-state getter - balances, units, delegates, votes, all checkpoints, supplies, owners -
+   answers exactly as in the previous observation (nothing lapses with the passage of ledgers) *)
+Definition core_eqb (a b : obs) : bool :=
+  eqb_list eqb_acct (o_accts a) (o_accts b) && (o_supply a =? o_supply b) && (o_ts a =? o_ts b)
+  && eqb_list eqb_zz (o_ts_cps a) (o_ts_cps b) && eqb_list oaddr_eqb (o_owners a) (o_owners b).
+Definition is_advance (c : call) : bool := match c with Advance _ => true | _ => false end.
+Definition stable_ok (prev : option obs) (c : call) (out : outcome) (o : obs) : bool :=
+  match prev with
+  | Some p => if is_advance c || negb (is_ok out) then core_eqb p o else true
+  | None => true
+  end.
+
+(* a delegatee changes only by a successful delegate call of that very account *)
+Definition prev_dlg (prev : option obs) (k : nat) : option addr :=
+  match prev with
+  | Some p => match nth_error (o_accts p) k with Some a => ao_dlg a | None => None end
+  | None => None
+  end.
+Definition dlg_expected (prev : option obs) (c : call) (out : outcome) (k : nat) : option addr :=
+  match c with
+  | Delegate a d => if is_ok out && N.eqb (N.of_nat k) a then Some d else prev_dlg prev k
+  | _ => prev_dlg prev k
+  end.
+Fixpoint dlg_ok_from (prev : option obs) (c : call) (out : outcome) (rest : list acct_obs) (k : nat) : bool :=
+  match rest with
+  | [] => true
+  | a :: r => oaddr_eqb (ao_dlg a) (dlg_expected prev c out k) && dlg_ok_from prev c out r (S k)
+  end.
+
+Fixpoint mon_from (prev : option obs) (prev_now : Z) (hist : history) (t : list item) (i : N) : N :=
   match t with
   | [] => 0%N
-  | (_, _, _, o) :: r =>
-      if mon_obs prev_now hist o
-      then mon_from (o_now o) (hist_push (o_now o) (cur_vector o) hist) r (N.succ i)
+  | (_, c, out, o) :: r =>
+      if mon_obs prev_now hist o && stable_ok prev c out o && dlg_ok_from prev c out (o_accts o) 0
+      then mon_from (Some o) (o_now o) (hist_push (o_now o) (cur_vector o) hist) r (N.succ i)
       else N.succ i
   end.
 
 Definition check (t : trace) : verdict :=
   let (h, items) := t in
-  (diff_from h (init h) items 0%N, mon_from (h_start h) [] items 0%N, 0%N).
+  (diff_from h (init h) items 0%N, mon_from None (h_start h) [] items 0%N, 0%N).
 Definition check_all (ts : list trace) : list verdict := map check ts.
 
 (* ---------- the observations the model itself produces ---------- *)
